@@ -1,5 +1,5 @@
 (* C09 — property theorems for the code as it is after fixes 1f61a03, 4ce6577 and 3c40407 (statements only; proofs in Proofs_*.v). *)
-From Sdns Require Import Common.Base Gen.C09 C09.Model C09.Proofs_Maps C09.Proofs_Rev C09.Proofs_Step C09.Proofs_Refute C09.Proofs_Prov C09.Proofs_Thm C09.Proofs_Hist C09.Proofs_Live C09.Proofs_Wf C09.Proofs_Inv C09.Proofs_KeyTag C09.Proofs_Gen.
+From Sdns Require Import Common.Base Gen.C09 C09.Model C09.Proofs_Maps C09.Proofs_Rev C09.Proofs_Step C09.Proofs_Refute C09.Proofs_Prov C09.Proofs_Thm C09.Proofs_Hist C09.Proofs_Live C09.Proofs_Wf C09.Proofs_Inv C09.Proofs_KeyTag C09.Proofs_Gen C09.Proofs_Root.
 Open Scope N_scope.
 
 (* A DNSKEY response carrying no valid signature made with the key material of a
@@ -264,3 +264,50 @@ Theorem sameKeyExceptRevoke_is_model :
   forall c r, go_sameKeyExceptRevoke c r = same_except_revoke (abs_key enc c) (abs_key enc r).
 Proof. exact gen_sameKeyExceptRevoke. Qed.
 Print Assumptions sameKeyExceptRevoke_is_model.
+
+(* ------------------------------------------------ wave 6: the consumers of the live trust set *)
+
+(* What the trust set means to validation.  verify_root = Resolver.verifyRootKeys (is this root DNSKEY RRset
+   authentic?), resolve_root = the CD=0 query for (., DNSKEY) through Resolver.Resolve / answer() / verifyDNSSEC;
+   both are tied to the code by the CRootV cases (the driver calls verifyRootKeys and Resolve on the real Resolver
+   after AutoTA runs and restarts).  A root DNSKEY RRset is accepted, or answered as authenticated data, only when it
+   carries a VALID signature made with the key material of a key that is in the live trust set with flags exactly
+   257 — for every key-tag function. *)
+Theorem authenticated_only_by_live_anchor :
+  forall (tag : key -> N) live keys sigs,
+    keys <> [] ->
+    verify_root tag live keys sigs = RVAccept \/ resolve_root tag live keys sigs = RSecure ->
+    exists s k, In s sigs /\ In k live /\ s_ok s = true /\ k_mat k = s_mat s /\ tag k = s_tag s /\ k_flags k = 257.
+Proof. exact authenticated_only_by_live_anchor_lemma. Qed.
+Print Assumptions authenticated_only_by_live_anchor.
+
+(* "... validation fails closed instead of trusting it": after a run that met an unreadable or corrupt revocation
+   store / state file, or that accepted a NEW revocation while both writes failed, verifyRootKeys accepts no
+   response whatsoever and the query is refused with "trust anchors unavailable" — whatever the response is and
+   whoever signed it (in particular the key the stale disk still calls Valid). *)
+Theorem fail_closed_validates_nothing :
+  forall (tag : key -> N) live cfg d now fe fl,
+    (f_tread fl <> TROk \/ f_sread fl = true) \/
+    (f_twrite fl = true /\ f_swrite fl = true /\ r_revoked (autota tag live cfg d now fe fl) <> []) ->
+    forall keys sigs,
+      verify_root tag (r_live (autota tag live cfg d now fe fl)) keys sigs = RVUnavailable /\
+      resolve_root tag (r_live (autota tag live cfg d now fe fl)) keys sigs = RUnavailable.
+Proof. exact fail_closed_validates_nothing_lemma. Qed.
+Print Assumptions fail_closed_validates_nothing.
+
+(* "A key whose self-signed revocation was accepted is never published as a trust anchor again", seen from the
+   validating query: premises as revocation_never_again; after EVERY later history of runs, crashes and restarts,
+   a root DNSKEY RRset is accepted / answered as authenticated data only if some valid signature on it was made
+   with a key OTHER than the revoked one.  The revoked key's signatures authenticate nothing, ever again. *)
+Theorem revoked_key_never_validates_again :
+  forall (tag : key -> N) (m : N) (s : sys) now fe fl,
+    In m (r_revoked (run_of tag s now fe fl)) ->
+    forall s1,
+    ((s1 = step tag s (ERun now fe fl) /\ r_writes (run_of tag s now fe fl) <> []) \/
+     (exists k cfg' tr sr, s1 = step tag s (ECrash now fe fl k cfg' tr sr) /\ firstn k (r_writes (run_of tag s now fe fl)) <> [])) ->
+    forall h keys sigs, keys <> [] ->
+      (verify_root tag (s_live (exec tag s1 h)) keys sigs = RVAccept \/
+       resolve_root tag (s_live (exec tag s1 h)) keys sigs = RSecure) ->
+      exists sg, In sg sigs /\ s_ok sg = true /\ s_mat sg <> m.
+Proof. exact revoked_key_never_validates_again_lemma. Qed.
+Print Assumptions revoked_key_never_validates_again.
